@@ -95,8 +95,13 @@ def apply_ops(run, spec, ops, case, tag):
                 _, a, vals = op
                 if not model.validate(a, len(vals)):
                     continue
-                real.setValues(a, list(vals))
+                mine = list(vals)
+                real.setValues(a, mine)
                 model.set(a, vals)
+                # the list handed to setValues stays the caller's: reusing it afterwards (as a buffer) must not reach into the block
+                for j in range(len(mine)):
+                    mine[j] = (not mine[j]) if isinstance(mine[j], bool) else (mine[j] ^ 0x2A5) & 0xFFFF
+                mine.append(0)
                 got = dump(real)
                 run.count('comparisons')
                 run.count('full_dumps')
